@@ -122,9 +122,12 @@ def prove_equal(
     for kind, env in cands:
         # the candidate must satisfy the assumptions in floats (definedness etc.)
         ok_assumptions = True
+        # auxiliary symbols (eigenvalue / max / inverse-cut / grid variables) are functions of the inputs: they are
+        # not part of a candidate input; assumptions mentioning them are decided by the replay itself
+        env_in = {k_: v_ for k_, v_ in env.items() if k_ in all_vars} if all_vars else env
         for a in assumes:
             try:
-                if not zeval(a, env):
+                if not zeval(a, env_in):
                     ok_assumptions = False
                     break
             except KeyError:
